@@ -315,6 +315,18 @@ func (w *world) judge(prop string, st qx.Status) *qx.Outcome {
 					}
 				}
 			}
+			// the calls the property says must be rejected (a message above BatchBytes; a message-level topic, whatever
+			// its name, on a Writer that has a writer-level topic): an error comes back and nothing of the call is sent
+			if why := s.mustReject(c.Thread, c.Idx); why != "" {
+				if c.Returned && (c.Kind == "nil" || c.Kind == "werrs" || c.Kind == "werrs-badlen") {
+					viol("invalid-call-accepted", fmt.Sprintf("call T%d.%d (%s) was not rejected: WriteMessages returned %s", c.Thread, c.Idx, why, c.Kind))
+				}
+				for _, id := range c.IDs {
+					if len(byID[id]) > 0 {
+						viol("invalid-call-sent", fmt.Sprintf("call T%d.%d (%s) must be rejected before anything is sent, but its message %s reached a produce request", c.Thread, c.Idx, why, id))
+					}
+				}
+			}
 		}
 		// scheduling without further input. Batches are reconstructed per partition.
 		type batch struct {
@@ -444,4 +456,26 @@ func (w *world) judge(prop string, st qx.Status) *qx.Outcome {
 		}
 	}
 	return o
+}
+
+// mustReject says whether the property demands that call idx of thread t is rejected, and why ("" = no demand).
+// Message.totalSize of the harness's messages is 31+pad, or 34+pad+n with one header "h" of n < 64 bytes (n >= 64: one
+// more byte for the varint); only sizes that are above the limit by the smaller formula are demanded.
+func (s *WS) mustReject(t, idx int) string {
+	if t >= len(s.Threads) || idx >= len(s.Threads[t]) {
+		return ""
+	}
+	for mi, m := range s.Threads[t][idx].Msgs {
+		if s.WriterTopic != "" && m.Topic != "" {
+			return fmt.Sprintf("Writer.Topic=%q and message %d has Message.Topic=%q", s.WriterTopic, mi, m.Topic)
+		}
+		size := 31 + m.Size
+		if m.Hdr > 0 {
+			size = 34 + m.Size + m.Hdr
+		}
+		if s.BatchBytes > 0 && int64(size) > s.BatchBytes {
+			return fmt.Sprintf("message %d has %d bytes or more, BatchBytes=%d", mi, size, s.BatchBytes)
+		}
+	}
+	return ""
 }
